@@ -123,3 +123,12 @@ func VV(m MaybeFloat) Float {
 //@   props C04
 //@   nopanic
 //@   inline
+
+//@ func (OptionalRanges).IsNone
+//@   props C19
+//@   nopanic
+//@   inline
+//@ func (IntNamedString).IsNone
+//@   props C19
+//@   nopanic
+//@   inline
